@@ -482,10 +482,10 @@ func c16R3(c *Ctx) {
 		}
 	}
 	for _, rl := range callsIn(f, idIs("(*trzsz.trzszBuffer).readLine")) {
-		hit, path := reachFromE(rl.Block(), instrIndex(rl.(ssa.Instruction))+1, isNilErrReturn, func(in ssa.Instruction) bool {
+		hit, path := reachFromE(rl.Block(), instrIndex(rl.(ssa.Instruction))+1, isNilErrReturn, c.orWrapper("strip", func(in ssa.Instruction) bool {
 			ci, isCall := in.(ssa.CallInstruction)
 			return isCall && calleeID(ci.Common()) == tT+"stripTmuxStatusLine"
-		}, func(from, to *ssa.BasicBlock) bool {
+		}), func(from, to *ssa.BasicBlock) bool {
 			i, k := junkIf(from)
 			return i != nil && to == from.Succs[k] && from.Succs[0] != from.Succs[1]
 		})
